@@ -212,3 +212,100 @@ M("c08-writer-colon-kv", "C08", "C08/DELIMS",
   (P, "result.append(key + b'=' + value)", "result.append(key + b':' + value)"))
 M("c08-twin-rename", "C08", "silent",
   (P, "def dquote(val):", "def dquote(val, _unused=None):"))
+
+# ---------------------------------------------------------------- C05
+M("c05-second-construction-path", "C05", "C05/LF-GATE",
+  (P, "    @classmethod\n    def from_parts(cls, name, params, values, sorted=True):",
+      "    @classmethod\n    def _raw(cls, value):\n        return str.__new__(Contentline, value)\n\n    @classmethod\n    def from_parts(cls, name, params, values, sorted=True):"))
+M("c05-gate-removed", "C05", "C05/LF-GATE",
+  (P, "        assert '\\n' not in value, ('Content line can not contain unescaped '\n                                   'new line characters.')\n", ""))
+M("c05-gate-after-construction", "C05", "C05/LF-GATE",
+  (P, "        assert '\\n' not in value, ('Content line can not contain unescaped '\n                                   'new line characters.')\n        self = super().__new__(cls, value)\n",
+      "        self = super().__new__(cls, value)\n        assert '\\n' not in self.strip(), ('Content line can not contain unescaped '\n                                   'new line characters.')\n"))
+M("c05-from-parts-comma", "C05", "C05/DELIMS",
+  (P, "return cls(f'{name};{params}:{values}')", "return cls(f'{name},{params}:{values}')"))
+M("c05-scanner-last-colon", "C05", "C05/DELIMS",
+  (P, "if ch == ':' and not value_split:", "if ch == ':':"))
+M("c05-scanner-ignores-quotes", "C05", "C05/DELIMS",
+  (P, "                if not in_quotes:\n                    if ch in ':;' and not name_split:",
+      "                if True:\n                    if ch in ':;' and not name_split:"))
+M("c05-value-slice-off-by-one", "C05", "C05/DELIMS",
+  (P, "values = unescape_string(st[value_split + 1:])", "values = unescape_string(st[value_split:])"))
+M("c05-quotable-no-colon", "C05", "C05/NEUTRALISE",
+  (P, 'QUOTABLE = re.compile("[,;: ’\']")', 'QUOTABLE = re.compile("[,; ’\']")'))
+M("c05-dquote-keeps-quote", "C05", "C05/NEUTRALISE",
+  (P, "    val = val.replace('\"', \"'\")\n", ""))
+M("c05-no-token-check", "C05", "C05/TOKEN",
+  (P, "            validate_token(name)\n            if not value_split:", "            if not value_split:"))
+M("c05-param-name-unvalidated", "C05", "C05/TOKEN",
+  (P, "                validate_token(key)\n", ""))
+M("c05-name-allows-colon", "C05", "C05/TOKEN",
+  (P, "NAME = re.compile(r'[\\w.-]+')", "NAME = re.compile(r'[\\w.:-]+')"))
+M("c05-unsafe-allows-semicolon", "C05", "C05/NEUTRALISE",
+  (P, "UNSAFE_CHAR = re.compile('[\\x00-\\x08\\x0a-\\x1f\\x7F\",:;]')", "UNSAFE_CHAR = re.compile('[\\x00-\\x08\\x0a-\\x1f\\x7F\",:]')"))
+M("c05-twin-if-raise-gate", "C05", "silent",
+  (P, "        assert '\\n' not in value, ('Content line can not contain unescaped '\n                                   'new line characters.')\n",
+      "        if not ('\\n' not in value):\n            raise ValueError('Content line can not contain unescaped new line characters.')\n"))
+
+# ---------------------------------------------------------------- C01
+M("c01-params-not-attached", "C01", "C01/ATTACH",
+  (C, "                        parsed_component.params = params\n", ""))
+M("c01-add-first-only", "C01", "C01/ATTACH",
+  (C, "                    for parsed_component in parsed_components:\n                        parsed_component.params = params\n                        component.add(name, parsed_component, encode=0)",
+      "                    for parsed_component in parsed_components[:1]:\n                        parsed_component.params = params\n                        component.add(name, parsed_component, encode=0)"))
+M("c01-content-line-drops-params", "C01", "C01/ATTACH",
+  (C, "        params = getattr(value, 'params', Parameters())\n        return Contentline.from_parts(name, params, value, sorted=sorted)",
+      "        params = Parameters()\n        return Contentline.from_parts(name, params, value, sorted=sorted)"))
+M("c01-attach-to-root", "C01", "C01/NEST",
+  (C, "                    stack[-1].add_component(component)", "                    stack[0].add_component(component)"))
+M("c01-end-no-guard", "C01", "C01/NEST",
+  (C, "                if not stack:\n                    # The stack is currently empty, the input must be invalid\n                    raise ValueError('END encountered without an accompanying BEGIN!')\n", ""))
+M("c01-nested-dropped", "C01", "C01/NEST",
+  (C, "                if not stack:  # we are at the end\n                    comps.append(component)\n                else:\n                    stack[-1].add_component(component)",
+      "                if not stack:  # we are at the end\n                    comps.append(component)"))
+M("c01-unknown-name-lost", "C01", "C01/NAME",
+  (C, "                if not getattr(component, 'name', ''):  # undefined components\n                    component.name = c_name\n", ""))
+M("c01-registry-name-mismatch", "C01", "C01/NAME",
+  (C, "        self['VJOURNAL'] = Journal", "        self['VJOURNAL'] = Todo"))
+M("c01-types-map-typo", "C01", "C01/CODEC",
+  (PR, "        'tzurl': 'uri',", "        'tzurl': 'url',"))
+M("c01-codec-missing-from-ical", "C01", "C01/CODEC",
+  (PR, "    @classmethod\n    def from_ical(cls, ical):\n        return cls(ical)\n\n\nclass TypesFactory", "\n\nclass TypesFactory"))
+M("c01-unescape-N-late", "C01", "C01/TEXT-DECODE",
+  (P, "        return text.replace('\\\\N', '\\\\n')\\\n                   .replace('\\r\\n', '\\n')\\\n                   .replace('\\\\n', '\\n')\\\n",
+      "        return text.replace('\\r\\n', '\\n')\\\n                   .replace('\\\\n', '\\n')\\\n                   .replace('\\\\N', '\\\\n')\\\n"))
+M("c01-wire-extra-rewrite", "C01", "C01/VALUE-WIRE",
+  (P, "    return val.replace('%2C', ',').replace('%3A', ':')\\\n", "    return val.replace('+', ' ').replace('%2C', ',').replace('%3A', ':')\\\n"))
+M("c01-date-unpadded", "C01", "C01/LAYOUT",
+  (PR, 's = f"{self.dt.year:04}{self.dt.month:02}{self.dt.day:02}"', 's = f"{self.dt.year}{self.dt.month:02}{self.dt.day:02}"'))
+M("c01-twin-rename-parsed", "C01", "silent",
+  (C, "parsed_component", "decoded_value", 8))
+
+# ---------------------------------------------------------------- C03
+M("c03-date-slice-wide", "C03", "C03/LAYOUT",
+  (PR, "                int(ical[4:6]),  # month\n                int(ical[6:8]),  # day\n            )\n            return date(*timetuple)",
+       "                int(ical[4:7]),  # month\n                int(ical[6:8]),  # day\n            )\n            return date(*timetuple)"))
+M("c03-day-unpadded", "C03", "C03/LAYOUT",
+  (PR, 's = f"{self.dt.year:04}{self.dt.month:02}{self.dt.day:02}"', 's = f"{self.dt.year:04}{self.dt.month:02}{self.dt.day}"'))
+M("c03-datetime-strftime", "C03", "C03/LAYOUT",
+  (PR, 's = f"{dt.year:04}{dt.month:02}{dt.day:02}T{dt.hour:02}{dt.minute:02}{dt.second:02}"', 's = dt.strftime("%Y%m%dT%H%M%S")'))
+M("c03-z-position", "C03", "C03/LAYOUT",
+  (PR, "            elif ical[15:16] == 'Z':", "            elif ical[14:15] == 'Z':"))
+M("c03-offset-seconds-slice", "C03", "C03/LAYOUT",
+  (PR, "int(ical[5:7] or 0))", "int(ical[5:6] or 0))"))
+M("c03-duration-single-digit-weeks", "C03", "C03/GRAMMAR-IN",
+  (PR, "P(?:(\\d+)W)?", "P(?:(\\d)W)?"))
+M("c03-duration-no-plus", "C03", "C03/GRAMMAR-IN",
+  (PR, "r'([-+]?)P", "r'([-]?)P"))
+M("c03-dispatch-length-15-only", "C03", "C03/",
+  (PR, "        if len(ical) in (15, 16):", "        if len(ical) in (15,):"))
+M("c03-dispatch-slash-after-length", "C03", "C03/DISPATCH",
+  (PR, "        if '/' in u:\n            return vPeriod.from_ical(ical, timezone=timezone)\n\n        if len(ical) in (15, 16):\n            return vDatetime.from_ical(ical, timezone=timezone)",
+       "        if len(ical) in (15, 16, 31, 33):\n            return vDatetime.from_ical(ical, timezone=timezone)\n        if '/' in u:\n            return vPeriod.from_ical(ical, timezone=timezone)\n"))
+M("c03-dispatch-no-minus-p", "C03", "C03/DISPATCH",
+  (PR, "if u.startswith(('P', '-P', '+P')):", "if u.startswith(('P', '+P')):"))
+M("c03-period-no-timezone", "C03", "C03/DISPATCH",
+  (PR, "end_or_duration = vDDDTypes.from_ical(end_or_duration, timezone=timezone)", "end_or_duration = vDDDTypes.from_ical(end_or_duration)"))
+M("c03-twin-local-rename", "C03", "silent",
+  (PR, "        u = ical.upper()\n        if u.startswith(('P', '-P', '+P')):\n            return vDuration.from_ical(ical)\n        if '/' in u:",
+       "        upper = ical.upper()\n        if upper.startswith(('P', '-P', '+P')):\n            return vDuration.from_ical(ical)\n        if '/' in upper:"))
